@@ -16,7 +16,7 @@ FEATURES = ("assign", "print", "control", "agg")
 RULE = (
     "random programs x random files x every combination of return-mode {absent, matches, no-matches}, unmatched-mode {absent, keep, no-keep}, "
     "run-mode {absent, run, no-run}, print-mode {absent, default, no-default}, logic-mode {absent, AND, OR} (sampled uniformly) x 0-3 extra "
-    "'key: value' fields with arbitrary value text (any characters except ~ [ ] $ and ':') and leading free text x comment placed before / after / both. "
+    "'key: value' fields with arbitrary value text (any characters except ~ [ ] $ and ':') and leading free text x comment placed before / after / both x entry point {collect(text), next(text), parse+next, parse+collect, fast_forward(text)}. "
     "Non-trivial: at least one mode or metadata field present and at least one line scanned; distinct = distinct (mode tuple, field shapes, placement, program skeleton)."
 )
 ASSUMPTIONS = [
@@ -82,7 +82,9 @@ def make_case(seed, shard, i):
         for mode, attr in (("return-mode", "collect_when_not_matched"), ("unmatched-mode", "unmatched_available"), ("logic-mode", "OR")):
             if cm["modes"][mode] is not None and r.random() < 0.7:
                 preset[attr] = r.random() < 0.5
-    return {"prog": prog, "rows": rows, "comment": cm, "placement": placement, "preset": preset}
+    # the entry point the caller uses; the csvpath text is handed to it directly (parsed lazily) or parsed first
+    method = r.choice(["collect", "collect", "next", "parse+next", "fast_forward", "parse+collect"])
+    return {"prog": prog, "rows": rows, "comment": cm, "placement": placement, "preset": preset, "method": method}
 
 
 _READS = {"n": 0}
@@ -103,7 +105,7 @@ def install_read_hook():
     CsvPath._vfy_reads = True
 
 
-def do_run(text, agg, capture_stdout=True, preset=None):
+def do_run(text, agg, capture_stdout=True, preset=None, method="collect"):
     from vfy import diffrun, env, hooks
 
     install_read_hook()
@@ -113,7 +115,19 @@ def do_run(text, agg, capture_stdout=True, preset=None):
         setattr(c, attr, val)
     with env.quiet_stdout() as q, hooks.recording(agg) as rec:
         try:
-            lines = c.collect(text)
+            if method == "collect":
+                lines = c.collect(text)
+            elif method == "next":
+                lines = [ln[:] for ln in c.next(text)]
+            elif method == "parse+next":
+                c.parse(text)
+                lines = [ln[:] for ln in c.next()]
+            elif method == "parse+collect":
+                c.parse(text)
+                lines = c.collect()
+            else:
+                c.fast_forward(text)
+                lines = None
             exc = None
         except Exception as e:  # noqa
             lines, exc = None, f"{type(e).__name__}: {str(e)[:300]}"
@@ -148,8 +162,11 @@ def run_case(case, agg):
     if case.get("preset"):
         w["set_on_the_instance_before_parsing"] = case["preset"]
         agg.count("runs_with_caller_defaults_overridden_by_comment")
-    base = do_run(base_text, agg)
-    run = do_run(text, agg, preset=case.get("preset"))
+    method = case.get("method", "collect")
+    w["entry_point"] = method
+    agg.count("entry:" + method)
+    base = do_run(base_text, agg, method=method)
+    run = do_run(text, agg, preset=case.get("preset"), method=method)
     case["_scanned"] = any(ev["considered"] for ev in base["rec"].lines)
     if base["exc"]:
         return "undecided", None
@@ -201,13 +218,13 @@ def run_case(case, agg):
     scanned = [(ev["pln"], ev["line"]) for ev in base["rec"].lines if ev["considered"]]
     base_ret = {ev["pln"] for ev in base["rec"].lines if ev["ret"]}
     want_lines = [ln for (p, ln) in scanned if ((p not in base_ret) if inverted else (p in base_ret))]
-    if run["lines"] != want_lines:
+    if run["lines"] is not None and run["lines"] != want_lines:
         w["got"] = run["lines"][:6]
         w["want"] = want_lines[:6]
         return "returned-lines", w
     # ---- unmatched-mode keep: collected + unmatched partition the records read
     unmatched = c.unmatched
-    if modes["unmatched-mode"] == "keep":
+    if modes["unmatched-mode"] == "keep" and "collect" in method:
         read = [(ev["pln"], ev["line"]) for ev in run["rec"].lines if len(ev["line"]) > 0]
         ret = {ev["pln"] for ev in run["rec"].lines if ev["ret"]}
         want_un = [ln for (p, ln) in read if p not in ret]
@@ -217,6 +234,8 @@ def run_case(case, agg):
             w["want_unmatched"] = want_un[:6]
             return "unmatched-partition", w
         if sorted(map(tuple, got_un + run["lines"])) != sorted(tuple(ln) for (_, ln) in read):
+            w["collected_plus_unmatched"] = len(got_un) + len(run["lines"])
+            w["records_read"] = len(read)
             return "unmatched-partition", w
     elif unmatched:
         w["unmatched"] = unmatched[:4]
@@ -242,7 +261,7 @@ def run_case(case, agg):
 def shape_of(case):
     cm = case["comment"]
     fshape = "/".join("".join("a" if ch.isalnum() else ("w" if ch.isspace() else "p") for ch in v)[:6] for _, v in cm["fields"])
-    return "|".join(f"{k[:3]}={v}" for k, v in cm["modes"].items()) + f"|{fshape}|{case['placement']}|{bool(cm['free'])}|{sorted((case.get('preset') or {}).items())}|" + lang.prog_shape(case["prog"])
+    return "|".join(f"{k[:3]}={v}" for k, v in cm["modes"].items()) + f"|{fshape}|{case['placement']}|{bool(cm['free'])}|{sorted((case.get('preset') or {}).items())}|{case.get('method')}|" + lang.prog_shape(case["prog"])
 
 
 def run_one(case, agg):
